@@ -398,7 +398,7 @@ def run(ctx):
             ctx.violation(f"kernel-polynomial-not-validated:{label}", {"input": label, "polynomial": rel},
                           f"kernel polynomial {rel} is not in the reported ideal but was not validated as an invariant", no_input=True)
             continue
-        sig = KNOWN_VIA_C16 if causal.get(id(inst)) else f"missing-relation:{label}:{rel}"
+        sig = f"missing-relation:{label}:{rel}"
         new = ctx.violation(sig, {"input": label, "instance": c06.raw_instance(inst), "goals": inst.get("goals") or first["names"], "closed_forms": first["exprs"],
                                   "reported_basis": first["basis_str"], "missing_relation": rel, "degree_bound": first["D"],
                                   "relation_validated_for_all_n": True,
